@@ -349,7 +349,8 @@ func (env *SpecEnv) derefVal(p *Val) (*Val, error) {
 		return &Val{T: p.T, S: SInt, Typ: pt.Elem(), Addr: true}, nil
 	}
 	s := env.U().sortOf(pt.Elem())
-	return &Val{T: sel(env.heap("P|"+s, arrSort(SInt, s)), p.T), S: s, Typ: pt.Elem()}, nil
+	phn, phs := env.U().ptrHeapT(pt.Elem())
+	return &Val{T: sel(env.heap(phn, phs), p.T), S: s, Typ: pt.Elem()}, nil
 }
 
 func (env *SpecEnv) index(base, idx *Val) (*Val, error) {
@@ -364,7 +365,7 @@ func (env *SpecEnv) index(base, idx *Val) (*Val, error) {
 		return &Val{T: ite(has, env.fr.mapGet(env.cur, base.T, mh, idx.T), env.fr.zero(t.Elem())), S: mh.vs, Typ: t.Elem()}, nil
 	case *types.Slice:
 		es := U.sortOf(t.Elem())
-		hn, hs := env.fr.elemHeap(es)
+		hn, hs := U.elemHeapT(t.Elem())
 		return &Val{T: sel(sel(env.heap(hn, hs), sx("sarr", base.T)), sx("+", sx("soff", base.T), idx.T)), S: es, Typ: t.Elem()}, nil
 	case *types.Array:
 		return &Val{T: sx("aget!"+base.S, base.T, idx.T), S: U.sortOf(t.Elem()), Typ: t.Elem()}, nil
@@ -642,6 +643,15 @@ func (env *SpecEnv) callExpr(c *ast.CallExpr) (*Val, error) {
 			return boolVal(or(eq(w, "1"), sx(">=", r, "1"))), nil
 		}
 		return boolVal(and(eq(w, "0"), eq(r, "0"))), nil
+	case "lockid":
+		mu, err := arg(0)
+		if err != nil {
+			return nil, err
+		}
+		if mu.S == SIface {
+			return mathInt(sx("ival", mu.T)), nil
+		}
+		return mathInt(mu.T), nil
 	case "unchanged":
 		a, err := arg(0)
 		if err != nil {
@@ -683,7 +693,7 @@ func (env *SpecEnv) callExpr(c *ast.CallExpr) (*Val, error) {
 		if err != nil {
 			return nil, err
 		}
-		hn, hs := env.fr.elemHeap(SInt)
+		hn, hs := U.elemHeapT(types.Typ[types.Uint8])
 		row := sel(env.heap(hn, hs), sx("sarr", s.T))
 		at := func(k int) Term { return sel(row, sx("+", sx("soff", s.T), sx("+", off.T, num(int64(k))))) }
 		switch fn.Name {
